@@ -3,8 +3,9 @@
 knobs from /repo's *current* source text into lean/Sozu/Generated/Consts.lean.
 
 Theorems that mention these names are re-checked against what the code says
-now. The translator refuses (exit 1) when an expected item is missing or is
-not a literal arithmetic expression it can evaluate.
+now. An expected item that is missing, or is not a literal expression the translator
+can evaluate, is left undefined (and reported): the Lean modules that use it then
+fail to compile, i.e. the proof obligations of the properties depending on it break.
 
 usage: extract_consts.py <repo> <out.lean>
 """
@@ -348,8 +349,10 @@ def main():
             errors.append(f"{name} ({f}): {ex}")
     lines += ["", "end Sozu.Consts", ""]
     if errors:
-        print("extract_consts: cannot extract:\n  " + "\n  ".join(errors))
-        sys.exit(1)
+        # An item that cannot be extracted is simply NOT defined: the Lean modules that use
+        # it stop compiling, which breaks the proof obligations of exactly the properties that
+        # depend on it (./check reports those), and of no other property.
+        print("extract_consts: cannot extract (left undefined):\n  " + "\n  ".join(errors))
     text = "\n".join(lines)
     old = open(out).read() if os.path.exists(out) else None
     if old != text:
